@@ -63,8 +63,16 @@ class Gen:
                 toks, nf = toks + t, ('call', nf, a)
             elif k == 3:
                 n = self.name()
-                t, a = self.args(depth - 1, vararg)
-                toks, nf = toks + [b':', n] + t, ('mcall', nf, n, a)
+                form = self.r.randrange(4)
+                if form == 0:                    # obj:method"s"  /  obj:method[[s]]
+                    sa = self.r.choice([b'"s"', b'[[x]]', b"'q'"])
+                    toks, nf = toks + [b':', n, sa], ('mcall', nf, n, ('sarg', sa))
+                elif form == 1:                  # obj:method{...}
+                    t, tb = self.table(depth - 1, vararg)
+                    toks, nf = toks + [b':', n] + t, ('mcall', nf, n, ('targ', tb))
+                else:
+                    t, a = self.args(depth - 1, vararg)
+                    toks, nf = toks + [b':', n] + t, ('mcall', nf, n, a)
             elif k == 4:
                 s = self.r.choice([b'"s"', b'[[x]]'])
                 toks, nf = toks + [s], ('call', nf, ('sarg', s))
@@ -74,7 +82,7 @@ class Gen:
         return toks, nf
 
     def args(self, depth, vararg=False):
-        n = self.r.randrange(0, 3)
+        n = self.r.randrange(0, 4)
         toks, es = [b'('], []
         for i in range(n):
             t, e = self.exp(depth, vararg)
@@ -84,7 +92,7 @@ class Gen:
 
     def table(self, depth, vararg=False):
         toks, fs = [b'{'], []
-        n = self.r.randrange(0, 3)
+        n = self.r.randrange(0, 4)
         for i in range(n):
             if i:
                 toks.append(self.r.choice([b',', b';']))
@@ -110,7 +118,7 @@ class Gen:
         return [b'function'] + t, ('func', fb)
 
     def funcbody(self, depth):
-        n = self.r.randrange(0, 3)
+        n = self.r.randrange(0, 4)
         dots = self.r.random() < 0.3
         names = [self.name() for _ in range(n)]
         toks = [b'(']
@@ -164,7 +172,7 @@ class Gen:
         t2, e = self.exp(depth - 1)
         return t + [b'['] + t2 + [b']'], ('index', p, e)
 
-    def explist(self, depth, vararg=False, lo=1, hi=2):
+    def explist(self, depth, vararg=False, lo=1, hi=3):
         toks, es = [], []
         for i in range(self.r.randrange(lo, hi + 1)):
             t, e = self.exp(depth, vararg)
@@ -213,7 +221,7 @@ class Gen:
             t, es = self.explist(depth, vararg)
             return [b';'] + toks + [b'='] + t, ('assign', [v], b'=', es)
         if kind == 'assign':
-            n = self.r.randrange(1, 3)
+            n = self.r.randrange(1, 4)
             toks, vs = [], []
             for i in range(n):
                 t, v = self.var(depth)
@@ -277,7 +285,7 @@ class Gen:
             bt, b = self.block(depth - 1, True, vararg, top=False)
             return toks + [b'do'] + bt + [b'end'], ('fornum', n, e1, e2, e3, b)
         if kind == 'forin':
-            names = [self.name() for _ in range(self.r.randrange(1, 3))]
+            names = [self.name() for _ in range(self.r.randrange(1, 4))]
             toks = [b'for']
             for i, nm in enumerate(names):
                 toks += ([b','] if i else []) + [nm]
@@ -285,7 +293,7 @@ class Gen:
             bt, b = self.block(depth - 1, True, vararg, top=False)
             return toks + [b'in'] + t + [b'do'] + bt + [b'end'], ('forin', tuple(names), es, b)
         if kind == 'function':
-            path = [self.name() for _ in range(self.r.randrange(1, 3))]
+            path = [self.name() for _ in range(self.r.randrange(1, 4))]
             toks = [b'function']
             for i, nm in enumerate(path):
                 toks += ([b'.'] if i else []) + [nm]
@@ -300,7 +308,7 @@ class Gen:
             t, fb = self.funcbody(depth - 1)
             return [b'local', b'function', n] + t, ('localfunction', n, fb)
         if kind == 'local':
-            names = [self.name() for _ in range(self.r.randrange(1, 3))]
+            names = [self.name() for _ in range(self.r.randrange(1, 4))]
             toks = [b'local']
             for i, nm in enumerate(names):
                 toks += ([b','] if i else []) + [nm]
